@@ -10,6 +10,8 @@ shutil.copy(os.path.join(wt, 'OUT', 'patch.diff'), os.path.join(d, 'patch.diff')
 demo = os.path.join(wt, 'OUT', 'tests', 'zz_demo_test.go')
 if not os.path.exists(demo):
     demo = os.path.join(wt, 'tests', 'zz_demo_test.go')
+if 'demo' in kv:
+    demo = os.path.join(wt, kv['demo'])
 shutil.copy(demo, os.path.join(d, 'zz_demo_test.go'))
 try:
     am = json.load(open(os.path.join(wt, 'OUT', 'meta.json')))
@@ -20,7 +22,7 @@ meta = {
     'summary': am.get('summary'),
     'needs_to_manifest': am.get('needs_to_manifest'),
     'files_changed': am.get('files_changed'),
-    'demonstration': {'file': 'zz_demo_test.go (place in /repo/tests/)', 'run': kv.get('demo_run', am.get('demo_run_cmd'))},
+    'demonstration': {'file': 'zz_demo_test.go (place in /repo/%s)' % os.path.dirname(kv.get('demo','tests/x')), 'run': kv.get('demo_run', am.get('demo_run_cmd'))},
     'confirmed_by_me': {
         'how': 'tools/verify_mutant.sh in the scratch worktree: go build ./...; demonstration with the change; demonstration with the change reverted; pinned baseline (guard off) with the change',
         'log': open(vlog).read().strip().splitlines(),
